@@ -310,6 +310,15 @@ func applyProfile(c *RunConfig, ch *simrt.Chooser, p string) {
 		c.Ops["snapshot"] = 4
 		c.Faults["isolate_leader"] = 3
 		c.Faults["crash"] = 3
+		if p == "C11" {
+			// snapshots racing with membership changes: what a snapshot records as the configuration
+			// must be the committed one at its index
+			c.Ops["membership"] = 3
+			if c.Spares == 0 {
+				c.Spares = 1
+			}
+			c.FSMSlowPct = pick(ch, 0, 30, 100)
+		}
 		c.Faults["stall"] = 2
 		c.StoreFlavour = pick(ch, FlavourPlain, FlavourPlain, FlavourMonotonic)
 		if c.FaultEvery == 0 {
